@@ -10,8 +10,8 @@ import (
 // ---------- exposure analysis: reference helpers (DESIGN C06, C07) ----------
 
 // Tape is a sequence of choices drawn inside the library and consumed deterministically by the oracle for
-// decisions that depend on the tool's output (hypothetical pods built from reported entries). An exhausted tape
-// yields 0 (the simplest choice), so shrinking the tape simplifies the hypothetical pods.
+// decisions that depend on the tool's output (hypothetical pods built from reported entries). An empty tape yields 0
+// (the simplest choice) throughout; a tape of zeros yields the simplest choices for its own length.
 type Tape struct {
 	V []uint32
 	i int
@@ -21,10 +21,16 @@ func (t *Tape) Pick(n int) int {
 	if n <= 1 {
 		return 0
 	}
-	if t.i >= len(t.V) {
+	if len(t.V) == 0 {
 		return 0
 	}
-	v := t.V[t.i]
+	v := t.V[t.i%len(t.V)]
+	if t.i >= len(t.V) {
+		// past the end the tape is read again, each value mixed with its position (a pure function of the case): the
+		// oracle of a world with many workloads asks for far more choices than a drawn slice holds on average
+		v = (v+uint32(t.i))*2654435761 ^ uint32(t.i)*40503
+		v >>= 7
+	}
 	t.i++
 	return int(v % uint32(n))
 }
@@ -320,7 +326,37 @@ func addNearDuplicates(t *rapid.T, w *World) {
 		refs := w.selectorPeers()
 		var src Peer
 		var srcNs string
-		kind := rapid.IntRange(0, 7).Draw(t, l+"kind")
+		kind := rapid.IntRange(0, 8).Draw(t, l+"kind")
+		if kind == 8 && len(w.NPs) > 0 {
+			// an entire-cluster rule whose ports touch both ends of the port space but leave a gap, next to a rule to
+			// specific (absent) peers on a named port of the same protocol: the named port may resolve into the gap
+			pi := rapid.IntRange(0, len(w.NPs)-1).Draw(t, l+"gpol")
+			proto := rapid.SampledFrom([]string{"", "TCP", "UDP", "SCTP"}).Draw(t, l+"gproto")
+			lo := rapid.SampledFrom([]int{1, 1, 2}).Draw(t, l+"glo")
+			hi := rapid.SampledFrom([]int{65535, 65535, 65534}).Draw(t, l+"ghi")
+			a := rapid.SampledFrom([]int{2, 52, 79}).Draw(t, l+"ga")
+			b := rapid.SampledFrom([]int{8000, 8082, 65534}).Draw(t, l+"gb")
+			wide := Rule{Ports: []PPort{{Proto: proto, PortNum: lo, EndPort: a}, {Proto: proto, PortNum: b, EndPort: hi}}}
+			if rapid.Bool().Draw(t, l+"gviaNs") {
+				wide.Peers = []Peer{{NsSel: &Selector{}}}
+			}
+			named := Rule{Peers: []Peer{{NsSel: &Selector{MatchLabels: map[string]string{"env": "fresh1"}}, PodSel: &Selector{MatchLabels: map[string]string{"app": "fresh2"}}}},
+				Ports: []PPort{{Proto: proto, PortNam: rapid.SampledFrom(portNames).Draw(t, l+"gname")}}}
+			ing := rapid.IntRange(0, 3).Draw(t, l+"gdir") == 0
+			if rapid.Bool().Draw(t, l+"gown") {
+				// a policy of its own, selecting every pod of the namespace
+				q := NetPol{Ns: w.NPs[pi].Ns, Name: "np-gap" + fmt.Sprint(d), PolicyTypes: []string{"Egress"}, Egress: []Rule{wide, named}}
+				if ing {
+					q.PolicyTypes, q.Ingress, q.Egress = []string{"Ingress"}, q.Egress, nil
+				}
+				w.NPs = append(w.NPs, q)
+			} else if ing {
+				w.NPs[pi].Ingress = append(w.NPs[pi].Ingress, wide, named)
+			} else {
+				w.NPs[pi].Egress = append(w.NPs[pi].Egress, wide, named)
+			}
+			continue
+		}
 		if kind == 6 && len(w.Workloads) > 0 && len(w.NPs) > 0 {
 			// a rule derived from an EXISTING workload: its label equalities are satisfied by a real pod, but one of the two
 			// selectors also carries a non-equality requirement - such a rule is not exempt from reporting
